@@ -10,6 +10,26 @@ open Model
 def moveKeys (v : List Nat) (x : Nat) (k : Int) : List Int :=
   v.mapIdx fun i b => if i = x then k else 2 * (Int.ofNat b) + 1
 
+/-- dense bucket numbering of a `Nat` vector: the used ids are downward closed. -/
+def DenseN (r : List Nat) : Prop := ∀ v ∈ r, ∀ b, b < v → b ∈ r
+
+/-- mirror law on the first `n` ids. -/
+def MirrorT (t : Table) (n : Nat) : Prop :=
+  ∀ i j, i < n → j < n → t.bef i j = t.aft j i ∧ t.tie i j = t.tie j i
+
+/-- inclusive sum `l[lo] + .. + l[hi]` (0 when `hi < lo`). -/
+def sumRange (l : List Int) (lo hi : Nat) : Int :=
+  isum ((List.range (hi + 1 - lo)).map fun i => l.getD (lo + i) 0)
+
+/-- what the in-place prefix accumulation of `_search_to_change_bucket` leaves in `change[j]`:
+    the cumulative delta of moving the element from bucket `b` into the existing bucket `j`. -/
+def changeTo (change : List Int) (b j : Nat) : Int :=
+  if j > b then sumRange change (b + 1) j else sumRange change j (b - 1)
+
+/-- same for `_search_to_add_bucket`: new singleton bucket just before old bucket `p`. -/
+def addTo (add : List Int) (b p : Nat) : Int :=
+  if p > b then sumRange add (b + 1) p else sumRange add p b
+
 /-- no single-element move improves the score of `v` by more than `τ`. -/
 def localOptVec (t : Table) (τ : Int) (v : List Nat) : Bool :=
   let base := scoreVecN t v
